@@ -329,7 +329,7 @@ class CoopCondition:
         t.timed_out = False
         t.deadline = None if timeout is None else s.clock + max(timeout, 0)
         self.waiters.append(t)
-        s.log.append(("wait", t.idx, self.name))
+        s.log.append(("wait", t.idx, self.name, t.deadline, s.clock))
         if s.on_event:
             s.on_event(s.log[-1])
         s._switch(t)
